@@ -92,6 +92,17 @@ def run(ctx, rule="CONTROL"):
     got = {o["key"]: o["ok"] for o in sc.obligations}
     ctx.ob(rule, "validate-all", got.get("control_validate_break@0") is False and got.get("control_validate_all@0") is True, FIXTURE,
            "break in a validating loop reported, nested-if skip accepted: %s" % {k: v for k, v in got.items() if "validate" in k})
+    from rules import lib_ref
+    sc = _report.Ctx("control", "quick", 0)
+    lib_ref.release(sc, P, floor=0, tu_key=tu.key)
+    lib_ref.singletons(sc, P, floor=0, tu_key=tu.key)
+    lib_ref.borrowed(sc, P, floor=0, tu_key=tu.key)
+    got = {"%s|%s" % (o["rule"], o["key"]): o["ok"] for o in sc.obligations}
+    want_ref = {"REF-RELEASE|control_ref_leak|list": False, "REF-RELEASE|control_ref_released|list": True,
+                "REF-SINGLETON|control_ref_singleton|Py_None": False, "REF-SINGLETON|control_ref_singleton_owned|Py_None": True,
+                "REF-BORROWED|control_ref_borrowed_released|item": False, "REF-BORROWED|control_ref_borrowed_kept|item": True}
+    ctx.ob(rule, "ref-discipline", all(got.get(k) is v for k, v in want_ref.items()), FIXTURE,
+           "leaked / unowned singleton / released borrowed reference reported, their twins accepted: %s" % {k: got.get(k) for k in want_ref})
     # Python slip lints on their own fixture
     from .pyfront import PyMod
     from rules import lib_kind3
